@@ -138,11 +138,18 @@ pub fn node_case(ctx: &mut Ctx, code: Option<&str>, queries: Vec<Value>) -> Resu
 /// Which known defect model (quirk) explains `got` for (d, v)?  See member.rs `Quirks`.
 pub fn explain(env: &Env, d: &D, v: &JsVal, mode: Mode, got: bool) -> Option<&'static str> {
     for q in crate::member::ALL_QUIRKS {
-        let r = Ref::with_quirk(env, mode, q);
-        let m = r.member(d, v);
-        let base = Ref::new(env, mode).member(d, v);
-        if m != base && m == Tri::from_bool(got) {
-            return Some(q);
+        // the unspecified zone is completed both ways: a defect model explains the observation if it does so
+        // under some reading of what the statement leaves open
+        for completion in [None, Some(false), Some(true)] {
+            let mut r = Ref::with_quirk(env, mode, q);
+            r.unspec_as = completion;
+            let mut b = Ref::new(env, mode);
+            b.unspec_as = completion;
+            let m = r.member(d, v);
+            let base = b.member(d, v);
+            if m != base && m == Tri::from_bool(got) {
+                return Some(q);
+            }
         }
     }
     None
